@@ -206,6 +206,47 @@ Proof.
 Qed.
 
 (* ------------------------------------------------------------------------------------------
+   T8 persistence.  Histories may contain [OReopen]: the store is closed and opened again (dict_store
+   with a backing file: close() then a new dict_store(FILE); file stores: a new store object on the
+   same directory; redis: a new connection) and every client goes on with fresh handles.  All theorems
+   above hold across any number of reopens: a lock acquired through a handle of the closed store is
+   still held (C04_exclusion with reopens in tr2: nobody else gets it - the crash residue that
+   remove_locks clears), a failed marker is still there (C04_failed_is_sticky).  The reason, on its
+   own: on EVERY backend a reopen issues [PReopen] (the identity on the lock state), returns, and
+   changes neither the stored value nor the observable status of any lock. *)
+Theorem C04_reopen_keeps_lock_state : forall (P : params) (b : backend) (hists : list (list (lockop * name)))
+                                             (s1 : list cid) (c : cid) (e : event),
+  let k := cfg_after P b hists s1 in
+  let k' := fst (sched_step P b k c) in
+  snd (sched_step P b k c) = Some e -> e_op e = OReopen ->
+  e_prim e = PReopen /\ e_ret e = Some OU /\
+  (forall m, sh k' m = sh k m) /\
+  (forall m, status_after (trace_of P b hists s1 ++ [e]) m = status_after (trace_of P b hists s1) m).
+Proof. exact run_reopen. Qed.
+Print Assumptions C04_reopen_keeps_lock_state.
+
+(* non-vacuity: client 0 acquires lock 0 and marks it failed, acquires lock 1; the store is reopened
+   (environment client 2); client 1 is refused both, sees lock 0 failed and lock 1 locked, not failed;
+   reopened again; client 3 (cleanup --failed-only) releases lock 0 and acquires it.  (Steps of a client
+   that has finished are no-ops, so one schedule serves the backends with one and with two primitives
+   per operation.) *)
+Example C04_nonvacuous_reopen :
+  let P := LockConsts.lock_params 1000000 in
+  let hists := [[(OGet, 0); (OFail, 0); (OGet, 1)];
+                [(OGet, 0); (OGet, 1); (OIsFailed, 0); (OIsLocked, 1); (OIsFailed, 1)];
+                [(OReopen, 0); (OReopen, 0)];
+                [(ORelease, 0); (OGet, 0)]] in
+  let s := repeat 0 8 ++ [2] ++ repeat 1 12 ++ [2] ++ repeat 3 6 in
+  let rets b := map (fun e => (e_c e, e_ret e)) (filter (fun e => is_some (e_ret e)) (trace_of P b hists s)) in
+  (forall b, repaired b = true -> wf_run P b (init hists) s = true /\
+     rets b = [(0, Some (OB true)); (0, Some (OB true)); (0, Some (OB true)); (2, Some OU);
+               (1, Some (OB false)); (1, Some (OB false)); (1, Some (OB true)); (1, Some (OB true)); (1, Some (OB false));
+               (2, Some OU); (3, Some OU); (3, Some (OB true))]).
+Proof.
+  cbv zeta. intros [] H; try discriminate H; vm_compute; split; reflexivity.
+Qed.
+
+(* ------------------------------------------------------------------------------------------
    T3 on the keep-alive backend, with the holder's helper process as a concurrent actor.
    The programs above run with the helper stopped (a refresh of a held lock writes the mtime it
    already has on the frozen clock).  While a helper runs, the one operation it can interfere with
